@@ -26,8 +26,8 @@ func init() {
 
 func genC09(ctx *Ctx) {
 	alpha := []rune{'a', 'b', ' ', ',', ';', '|', '"', '\'', '\r', '\n', 'é', '日', 0, 0xFFFE, '\t', 'ÿ', 0x100, '；', '語', 0xFEFF, 0x2028, 0xA0, 0x200B, 0xFFFD, '\v', '\f', 0x85}
-	sepSets := [][]rune{{','}, {';', ','}, {'|'}, {'日'}, {'ÿ'}, {'；', ','}}
-	quoteSets := [][]rune{{'"'}, {'"', '\''}, {'\''}, {'é'}}
+	sepSets := [][]rune{{','}, {';', ','}, {'|'}, {'日'}, {'ÿ'}, {'；', ','}, {0x100}, {0xFFFE, ';'}}
+	quoteSets := [][]rune{{'"'}, {'"', '\''}, {'\''}, {'é'}, {0x101}, {'þ', '"'}}
 	eols := []string{"\n", "\r", "\r\n", "\n\r"}
 	st := csv.NewCsvQuoteState()
 	for i := 0; i < ctx.N*3; i++ {
@@ -92,7 +92,12 @@ func genC09(ctx *Ctx) {
 			}
 		}
 		ctx.Count("eol:" + sx.Quote(eol))
-		ctx.Input(sx.L(sx.I(2), sx.I(64), sx.S(text.String()), sx.L(sx.R(seps), sx.R(quotes)), rows), nontrivial)
+		cfg := sx.SX(sx.L(sx.R(seps), sx.R(quotes)))
+		if ctx.Rnd.Intn(2) == 0 { // the tokenizer object reaches this configuration through a history of setter calls, some of them refused
+			cfg = csvHistory(ctx.Rnd, cfg)
+			ctx.Count("configured-by-history")
+		}
+		ctx.Input(sx.L(sx.I(2), sx.I(64), sx.S(text.String()), cfg, rows), nontrivial)
 	}
 }
 
